@@ -44,11 +44,11 @@ type RunSpec struct {
 
 // FaultSpec asks the worker to wrap the store in a fault injector (C20).
 type FaultSpec struct {
-	K      int  `json:"k"`     // fail the K-th driver call (-1: record only)
-	Elems  int  `json:"elems"` // deliver this many elements first
+	K     int `json:"k"`     // fail the K-th driver call (-1: record only)
+	Elems int `json:"elems"` // deliver this many elements first
 	// Persist: the driver stays down, every later call fails too
 	Persist bool `json:"persist,omitempty"`
-	Record bool `json:"record,omitempty"`
+	Record  bool `json:"record,omitempty"`
 }
 
 // BQLReq is a worker request: build a store, then run the statements in order.
